@@ -3,7 +3,7 @@
 P=$1; shift
 cd /repo || exit 2
 [ -z "$(git status --porcelain --untracked-files=no)" ] || { echo "/repo not clean"; exit 2; }
-git apply "$P" || { echo "patch does not apply"; exit 2; }
+git apply "$P" 2>/dev/null || patch -p1 -s --no-backup-if-mismatch < "$P" || { echo "patch does not apply"; git checkout -- .; exit 2; }
 for pid in "$@"; do
   (cd /verif && ./check $pid --tier ${TIER:-quick} 2>&1 | grep -E "^(VIOLATION|KNOWN|ERROR|C[0-9]+ tier)" | cut -c1-220; echo "exit=${PIPESTATUS[0]}")
 done
